@@ -35,6 +35,7 @@ def run(chk, repo):
     chk.attempt(g4, chk, op)
     chk.attempt(check_codec, chk, repo, "C07")
     chk.attempt(naming, chk, op)
+    chk.attempt(cache_key, chk, op)
     chk.attempt(provenance, chk, op)
     chk.attempt(serialised_last, chk, op, "C07-G6")
     from .c10 import w3
@@ -200,6 +201,7 @@ def _later_binds(fi, call, o):
 # ----------------------------------------------------------------------------
 def g4(chk, op):
     chk.rule("C07-G4", "a cache hit returns before any product read; CachingError falls through to the parse; read_cache raises CachingError when no cache exists", 3)
+    chk.rule("C07-G7", "a tree decoded from the cache is returned unconditionally (nothing after the lookup can discard a usable cache)", 1)
     repo = op.repo
     fi = op.fi(OPEN_IMAGE)
     where = op.where(fi)
@@ -251,6 +253,33 @@ def g4(chk, op):
                     "CachingError from the cache lookup is handled by falling through to the parse path",
                     "CachingError from the cache lookup is not handled (or re-raised / returned): with no cache present the product is not parsed",
                     key="open_image:fallback")
+        # G7: once read_cache has produced a tree, it is what open_image returns: nothing between the lookup and the
+        # return may send a usable cache down the fallback (a raise of a class the fallback handler catches, a condition)
+        if handled is not None and isinstance(st, ast.Assign):
+            tr_body = None
+            for tr in trs:
+                if handled in tr.handlers:
+                    tr_body = tr.body
+            after = []
+            if tr_body is not None and st in tr_body:
+                after = tr_body[tr_body.index(st) + 1:]
+            raisers = _may_raise(op, lambda cls: catches(repo, fi, handled, cls))
+            bad = []
+            for s2 in after:
+                for n2 in ast.walk(s2):
+                    if isinstance(n2, ast.Raise):
+                        bad.append(short(n2, 50))
+                    if isinstance(n2, ast.Call):
+                        for cal in resolve_callees(repo, fi, n2.func):
+                            if cal.func is not None and cal.func.key in raisers:
+                                bad.append(f"{short(n2, 50)} (may raise {raisers[cal.func.key]})")
+                if isinstance(s2, ast.If) and any(isinstance(x, ast.Return) for x in ast.walk(s2)):
+                    bad.append(f"return under `if {short(s2.test, 40)}`")
+            chk.require(not bad, "C07-G7", where, "a tree decoded from the cache is returned as it is (no further validation that could discard it)",
+                        f"after the cache lookup succeeded, {bad[0]} can still send open_image down the parse path: a usable cache is discarded and the line records are re-read",
+                        key="open_image:hit-unconditional", sample={"between lookup and return": [short(x, 50) for x in after]})
+        else:
+            chk.ok("C07-G7", where, "the result of read_cache is returned directly")
     # read_cache: every raise is a CachingError-family class, and the function never falls off the end
     rc = op.fi(READ_CACHE)
     raises = [n for n in rc.own_nodes() if isinstance(n, ast.Raise)]
@@ -270,6 +299,39 @@ def g4(chk, op):
     chk.require(good and _terminates(rc.node.body), "C07-G4", op.where(rc),
                 "read_cache ends in `raise CachingError` when neither cache exists",
                 "read_cache does not signal a missing cache with CachingError (raises something else, or returns None)", key="read_cache:miss")
+
+
+def _may_raise(op, caught):
+    """{function key: class text} for repo functions that can raise (themselves or through repo callees) a class for which
+    ``caught(cls)`` holds; classes are resolved, the closure is over the call graph"""
+    repo = op.repo
+    direct = {}
+    for k, f in op.g.funcs.items():
+        for n in f.own_nodes():
+            if isinstance(n, ast.Raise) and n.exc is not None:
+                exc = n.exc.func if isinstance(n.exc, ast.Call) else n.exc
+                r = repo.resolve_expr(f, exc)
+                cls = ("repo", r.mod, r.node) if r.kind == "class" else (r.fq[len("builtins."):] if r.kind == "external" and r.fq.startswith("builtins.") else None)
+                if cls is None and isinstance(exc, ast.Name):
+                    cls = exc.id
+                try:
+                    if cls is not None and caught(cls):
+                        direct[k] = norm(exc)
+                except Exception:
+                    continue
+    out = dict(direct)
+    changed = True
+    while changed:
+        changed = False
+        for k in op.g.funcs:
+            if k in out:
+                continue
+            for callee in op.g.edges.get(k, ()):
+                if callee in out:
+                    out[k] = out[callee]
+                    changed = True
+                    break
+    return out
 
 
 def _returns(handler):
@@ -355,6 +417,62 @@ def naming(chk, op):
     chk.require(bool(a) and a == b[: len(a)] or (bool(a) and set(a) <= set(b)), "C07-N", op.where(cc),
                 f"create_cache and read_cache locate the local cache with the same expression {a}",
                 f"create_cache locates the cache with {a}, read_cache with {b}", key="naming:writer-reader-args")
+
+
+def cache_key(chk, op):
+    """C07-N2: two different products never share a cache file: the location of the local cache is evaluated (constant
+    folding in the shape interpreter, digests by the standard library) on pairs of product roots that are different
+    locations and on pairs of image names; different (root, image) must give different locations"""
+    chk.rule("C07-N2", "the local cache location separates different product roots and different image files", 6)
+    repo = op.repo
+    loc = op.fi(LOCAL_LOC)
+    img = "IMG-HH-ALOS2012345678-140102-WBDR1.5RUD"
+    pairs = [("/archive/ALOS2/scene", "/archive/alos2/scene", "letter case"), ("s3://bucket/Scene-A", "s3://bucket/scene-a", "letter case of the key"),
+             ("/data/a b", "/data/ab", "blanks"), ("/data/a", "/data/a/b", "nesting depth"), ("memory://x/p", "file://x/p", "protocol"),
+             ("/a/b", "/a_b", "separator characters"), ("/data/scene.1", "/data/scene.2", "dotted suffix"), ("/data/0123456789/scene", "/data/0123456780/scene", "long common prefix")]
+    for r1, r2, what in pairs:
+        l1, l2 = _local_parts(repo, loc, r1, img), _local_parts(repo, loc, r2, img)
+        chk.require(l1 != l2, "C07-N2", op.where(loc), f"roots differing in {what} get different cache locations",
+                    f"product roots {r1!r} and {r2!r} (different locations: {what}) share the cache location {'/'.join(l1)}: the index written for one product is served for the other "
+                    f"(its byte ranges, its root)", key=f"cache-key:root:{what}", sample={"roots": [r1, r2], "differ in": what})
+    for p1, p2, what in (("IMG-HH-ALOS2012345678-140102-WBDR1.1__D-B1", "IMG-HH-ALOS2012345678-140102-WBDR1.1__D-B2", "scan number"),
+                         ("IMG-HH-ALOS2012345678-140102-WBDR1.5RUD", "IMG-HV-ALOS2012345678-140102-WBDR1.5RUD", "polarisation")):
+        l1, l2 = _local_parts(repo, loc, "/data/p", p1), _local_parts(repo, loc, "/data/p", p2)
+        chk.require(l1 != l2, "C07-N2", op.where(loc), f"images differing in {what} get different cache files",
+                    f"images {p1!r} and {p2!r} of one product share the cache location {'/'.join(l1)}", key=f"cache-key:image:{what}")
+
+
+def _local_parts(repo, loc, root, path):
+    """components (after the cache root) of local_cache_location(root, path), folded to constants"""
+    from ..shapes import Const, Interp, ShapeError, _Raise
+    I = Interp(repo)
+    sc = I.module_scope(loc.module).child(owner=loc)
+    ps = loc.positional_params
+    if len(ps) != 2:
+        raise AnalysisError(f"{loc.key}: expected (remote_root, path) parameters")
+    sc.vars[ps[0]] = Const(root)
+    sc.vars[ps[1]] = Const(path)
+    body = [st for st in loc.node.body if not (isinstance(st, ast.Expr) and isinstance(st.value, ast.Constant))]
+    if not body or not isinstance(body[-1], ast.Return):
+        raise AnalysisError(f"{loc.key}: not a straight-line function ending in a return; cache location not decided")
+    parts = []
+    e = body[-1].value
+    while isinstance(e, ast.BinOp) and isinstance(e.op, ast.Div):
+        parts.append(e.right)
+        e = e.left
+    if not parts:
+        raise AnalysisError(f"{loc.key}: returns {short(body[-1].value, 60)}, not <cache root> / ... / <name>; cache location not decided")
+    out = []
+    try:
+        I.exec_block(body[:-1], sc, [])
+        for x in reversed(parts):
+            v = I.eval(x, sc)
+            if not (isinstance(v, Const) and isinstance(v.v, str)):
+                raise AnalysisError(f"{loc.key}: component {short(x, 40)} of the cache location does not fold to a constant for root {root!r} ({v!r}); not decided"[:300])
+            out.append(v.v)
+    except (ShapeError, _Raise) as ex:
+        raise AnalysisError(f"{loc.key}: cannot evaluate the cache location for {root!r}: {ex}")
+    return out
 
 
 def _local_name(repo, loc, path):
